@@ -60,7 +60,7 @@ impl Property for C06 {
     fn id(&self) -> &'static str { "C06" }
     fn rule(&self) -> String {
         "A rule from the full-grammar generator (all four rule types, condensed rules, sets, optionals, ellipses, structures, variables, alphas, environment sets; elements word-directed) and a generated word (30% from the rich pool, stress/tone/length); \
-         a plain literal z from the common phone pool whose bundle differs from every segment of the parsed word is planted as a mandatory top-level element of every input term (insertion rules: on one side of every environment of the context); in one non-insertion rule out of six it is instead planted inside an input structure `<…>` whose other items spell out a whole syllable of the word. \
+         a literal z — a plain phone from the common pool or (one in five) a base that occurs in the word plus one diacritic, half of those with a parameter list such as `:[-long]` — whose bundle differs from every segment of the parsed word is planted as a mandatory top-level element of every input term (insertion rules: on one side of every environment of the context); in one non-insertion rule out of six it is instead planted inside an input structure `<…>` whose other items spell out a whole syllable of the word. \
          Also blank, whitespace-only and comment-only lines. Oracle: the structural result of applying the rule is Err(_) or equal to the word (segments, boundaries, stress, tone); black-box cross-check: asca::run gives the same text as the empty rule list. \
          Non-trivial: the rule uses ≥1 of set/optional/ellipsis/structure/variable/alpha/env-set/condensed and the word has ≥2 syllables, and the call returned Ok. Quick 2M, thorough 20M cases.".into()
     }
@@ -77,21 +77,29 @@ impl Property for C06 {
             let mut r = g.rule(t);
             let cands: Vec<&PSeg> = pool().common.iter().filter(|p| !flat.contains(&p.seg)).collect();
             if cands.is_empty() { return None }
-            let z = cands[t.pick(cands.len())].text.clone();
+            let zc = cands[t.pick(cands.len())]; let mut z = zc.text.clone(); let mut zseg = zc.seg;
+            // one literal in five carries a diacritic and (half of those) a parameter list: a base that does occur in the word, marked so that the marked segment does not
+            if t.chance(1, 5) {
+                let marked: Vec<&PSeg> = pool().dia1.iter().filter(|p| !flat.contains(&p.seg) && g.segs.iter().any(|(gr, _)| p.text.starts_with(gr.as_str()) && p.text.chars().count() == gr.chars().count() + 1)).collect();
+                if !marked.is_empty() { let m = marked[t.pick(marked.len())]; z = m.text.clone(); zseg = m.seg; if t.chance(1, 2) { z.push_str([":[-overlong]", ":[-sec.stress]", ":[-long]", ":[+stress]"][t.pick(4)]); } }
+            }
             // one rule in six: the literal is planted *inside* an input structure whose other items spell out a whole syllable of the word,
             // so that the syllable is used up exactly where the absent literal stands (or just before / after it)
             let planted_in_struct = rule_kind(&r) != "insertion" && t.chance(1, 6) && plant_in_structure(t, &mut r, &z, &MWord::from_asca(&pw));
             if planted_in_struct { g.uses.insert("structure"); } else { plant(t, &mut r, &z); }
             let kind_of = |e: Option<&El>| match e { None => "none", Some(El::SBound) => "sbound", Some(El::WBound) => "wbound", Some(El::Struct { .. }) => "struct", Some(El::Syll { .. }) => "syll", Some(El::Opt { .. }) => "opt", Some(El::Ellipsis) => "ellipsis", Some(El::Set(_)) => "set", Some(_) => "seg" };
             let (bl, af) = match &r.context { Some(EnvSpec::List(items)) => match items.first() { Some(EnvItem::One(e)) => (kind_of(e.before.last()), kind_of(e.after.first())), _ => ("?", "?") }, _ => ("?", "?") };
-            Some(json!({"rule": rule_text(&r), "word": word, "planted": z, "uses": g.uses.iter().collect::<Vec<_>>(), "kind": rule_kind(&r), "before_last": bl, "after_first": af}))
+            Some(json!({"rule": rule_text(&r), "word": word, "planted": z, "planted_seg": zseg.to_json(), "uses": g.uses.iter().collect::<Vec<_>>(), "kind": rule_kind(&r), "before_last": bl, "after_first": af}))
         });
     }
     fn check(&self, case: &Value) -> Outcome {
         let rule = case["rule"].as_str().unwrap_or(""); let word = case["word"].as_str().unwrap_or("");
         let w = match api::parse_word(word) { Ok(Ok(w)) => w, _ => return Outcome::skip("word does not parse") };
         let mw = MWord::from_asca(&w);
-        if let Some(z) = case["planted"].as_str() { if mw.flat().contains(&tables().by_name[z]) { return Outcome::skip("planted literal occurs in the word") } }
+        if let Some(z) = case["planted"].as_str() {
+            let zseg = if case["planted_seg"].is_null() { tables().by_name.get(z).copied() } else { Some(MSeg::from_json(&case["planted_seg"])) };
+            match zseg { Some(zs) => if mw.flat().contains(&zs) { return Outcome::skip("planted literal occurs in the word") }, None => return Outcome::skip("planted literal unknown to the harness") }
+        }
         let kind = case["kind"].as_str().unwrap_or("?");
         match api::apply_rules(&[rule.to_string()], &w) {
             Err(_) => Outcome::skip("call did not return (C02's business)"),
